@@ -345,13 +345,14 @@ func HasRepeated(s *dremel.Schema) bool {
 type GenKind string
 
 const (
-	GenStruct   GenKind = "struct"   // structural enumeration, unique values
-	GenExtreme  GenKind = "extreme"  // per-type extreme values
+	GenStruct   GenKind = "struct"        // structural enumeration, unique values
+	GenExtreme  GenKind = "extreme"       // per-type extreme values
 	GenExtremeS GenKind = "extreme-small" // the same without the 70 KiB string
-	GenRandom   GenKind = "random"   // random structure and values
-	GenRuns     GenKind = "runs"     // long stretches of identical structure (RLE-friendly levels)
-	GenBoundary GenKind = "boundary" // list lengths at level-run boundaries
-	GenHuge     GenKind = "huge"     // a 16k+ element list / 70 KiB string
+	GenRandom   GenKind = "random"        // random structure and values
+	GenRuns     GenKind = "runs"          // long stretches of identical structure (RLE-friendly levels)
+	GenBoundary GenKind = "boundary"      // list lengths at level-run boundaries
+	GenHuge     GenKind = "huge"          // a 16k+ element list / 70 KiB string
+	GenUniform  GenKind = "uniform"       // every record has the same structure (long RLE runs in the levels)
 )
 
 // GenRecords produces n records (GenStruct ignores n and returns the whole
@@ -392,6 +393,12 @@ func GenRecords(s *dremel.Schema, kind GenKind, n int, rng *rand.Rand, thorough 
 			for j := 1; j < stretch && len(out) < n; j++ {
 				out = append(out, genTree(s, &replayChooser{log: choices}, randomVals{rng}, lensSmall))
 			}
+		}
+	case GenUniform:
+		rec := &recordingChooser{r: rand.New(rand.NewSource(rng.Int63()))}
+		out = append(out, genTree(s, rec, randomVals{rng}, lensSmall))
+		for len(out) < n {
+			out = append(out, genTree(s, &replayChooser{log: rec.log}, randomVals{rng}, lensSmall))
 		}
 	case GenBoundary:
 		for i := 0; i < n; i++ {
